@@ -25,6 +25,7 @@ package interp
 import (
 	"bytes"
 	"fmt"
+	"go/token"
 	"go/types"
 	"sync"
 	"unsafe"
@@ -99,7 +100,7 @@ func sameType(x, y types.Type) bool {
 // isSymbolic reports whether v (a scalar or string) has a symbolic part.
 func isSymbolic(v value) bool {
 	switch v.(type) {
-	case sym, symstr:
+	case sym, symstr, ftab, fmono:
 		return true
 	}
 	return false
@@ -112,6 +113,16 @@ func (i *interpreter) equalsV(t types.Type, x, y value) value {
 	switch x := x.(type) {
 	case sym:
 		return i.boolVal(i.symEq(x, y))
+	case ftab:
+		if r, ok := i.ftabBinop(token.EQL, x, y); ok {
+			return r
+		}
+		return i.boolVal(i.tb.FpCmp(smt.OpFpEq, i.termOf(x), i.termOf(y)))
+	case fmono:
+		if r, ok := i.fmonoBinop(token.EQL, x, y); ok {
+			return r
+		}
+		return i.boolVal(i.tb.FpCmp(smt.OpFpEq, i.termOf(x), i.termOf(y)))
 	case symstr:
 		return i.boolVal(i.strEq(x, y))
 	case string:
@@ -122,6 +133,12 @@ func (i *interpreter) equalsV(t types.Type, x, y value) value {
 	case bool, int, int8, int16, int32, int64, uint, uint8, uint16, uint32, uint64, uintptr, float32, float64:
 		if ys, ok := y.(sym); ok {
 			return i.boolVal(i.symEq(ys, x))
+		}
+		if _, ok := y.(ftab); ok {
+			return i.equalsV(t, y, x)
+		}
+		if _, ok := y.(fmono); ok {
+			return i.equalsV(t, y, x)
 		}
 		return equalsConcrete(x, y)
 	case complex64:
